@@ -11,6 +11,48 @@ pub const PAGE: usize = 4096;
 const ARENA_LEN: usize = 1 << 30;
 pub const EXIT_MEMFAULT: i32 = 86;
 pub const EXIT_CRASH_OTHER: i32 = 87;
+pub const EXIT_HANG: i32 = 88;
+/// incremented whenever an operation finishes: the watchdog's notion of progress
+pub static PROGRESS: AtomicU64 = AtomicU64::new(0);
+
+/// Liveness monitor: if no operation finishes for `limit_s` seconds while one is executing, the
+/// process writes a crash record ("HANG ...") and exits with EXIT_HANG, so that a call that never
+/// returns becomes a violation with a replay instead of a check that never ends.
+pub fn start_watchdog(limit_s: u64) {
+    std::thread::Builder::new()
+        .name("watchdog".into())
+        .spawn(move || {
+            let mut last = (u64::MAX, u64::MAX, u64::MAX);
+            let mut since = std::time::Instant::now();
+            loop {
+                std::thread::sleep(std::time::Duration::from_millis(500));
+                let cur = (CUR_RUN.load(Ordering::Relaxed), CUR_TASK_OP.load(Ordering::Relaxed), PROGRESS.load(Ordering::Relaxed));
+                if cur != last || IN_SUT.load(Ordering::Relaxed) == 0 {
+                    last = cur;
+                    since = std::time::Instant::now();
+                    continue;
+                }
+                if since.elapsed().as_secs() >= limit_s {
+                    let mut buf = [0u8; 256];
+                    let mut n = 0;
+                    put(&mut buf, &mut n, b"HANG no operation finished for ");
+                    put_num(&mut buf, &mut n, limit_s, false);
+                    put(&mut buf, &mut n, b"s run=");
+                    put_num(&mut buf, &mut n, cur.0, false);
+                    put(&mut buf, &mut n, b" task=");
+                    put_num(&mut buf, &mut n, cur.1 >> 32, false);
+                    put(&mut buf, &mut n, b" op=");
+                    put_num(&mut buf, &mut n, cur.1 & 0xffff_ffff, false);
+                    put(&mut buf, &mut n, b"\n");
+                    unsafe {
+                        libc::write(CRASH_FD.load(Ordering::Relaxed), buf.as_ptr() as *const libc::c_void, n);
+                        libc::_exit(EXIT_HANG);
+                    }
+                }
+            }
+        })
+        .expect("watchdog thread");
+}
 
 static ARENA_BASE: AtomicUsize = AtomicUsize::new(0);
 static BUMP: Mutex<usize> = Mutex::new(0);
